@@ -117,18 +117,32 @@ def cases(tier, seed, flavour, kinds=('strict', 'pinf', 'dinf')):
     fams = [(1, 2), (1, 3), (2, 2)] + ([(2, 3)] if tier == 'thorough' else [])
     for (n, m) in fams:
         for cc in itertools.product(pal, repeat=n):
-            if not any(cc):
-                continue
             for g0 in itertools.product(pal, repeat=m):
+                if not any(cc):
+                    # c = 0 (pure feasibility problems): the least-squares start has z = 0 and zero gap, so conelp leaves
+                    # through its iteration-0 return whenever s is in the cone - with every KKT solver, rank-deficient G included
+                    yield {'fam': 'lp', 'n': n, 'm': m, 'c': list(cc), 'g0': list(g0), 'pal': pal, 'cfgset': 'kkt'}
+                    continue
                 sets = ['base']
                 if (n, m) in ((1, 2), (1, 3)):
                     sets.append('kkt')
                 if (n, m) == (2, 2) or tier == 'thorough':
                     sets.append('loose')
-                if tier == 'thorough' and (n, m) == (2, 2):
-                    sets.append('kkt')
+                if (n, m) == (2, 2):
+                    sets.append('kkt')      # rank-deficient [G; A] with every KKT solver: inaccurate start-up solves
                 for cs in sets:
                     yield {'fam': 'lp', 'n': n, 'm': m, 'c': list(cc), 'g0': list(g0), 'pal': pal, 'cfgset': cs}
+    if tier == 'quick':
+        # L(2,3) restricted to c = 0 (thorough runs all of L(2,3)): three inequalities in two variables contain the rank-1
+        # matrices G for which the QR / LDL start-up solve is inaccurate without failing
+        for g0 in itertools.product(pal, repeat=3):
+            yield {'fam': 'lp', 'n': 2, 'm': 3, 'c': [0, 0], 'g0': list(g0), 'pal': pal, 'cfgset': 'kkt'}
+    # rank-one G = u v' (3 x 2) whose columns are proper multiples of each other (v not in {0, 1, -1}^2): Householder QR /
+    # LDL of such a matrix leaves a rounding-level pivot instead of an exact zero, so the start-up solve is inaccurate
+    # without raising - c = 0 and c = +-v (in the range of G'), every KKT solver
+    for u in itertools.product(pal, repeat=3):
+        if any(u):
+            yield {'fam': 'rank1', 'u': list(u), 'pal': pal, 'cfgset': 'kkt'}
     structs = dom.structures(tier)
     nvar = 2 if tier == 'quick' else 3
     for d in structs:
@@ -159,6 +173,14 @@ def instances(case):
                 G = [[float(t) for t in case['g0']]] + [[float(rest[(j - 1) * m + i]) for i in range(m)] for j in range(1, n)]
                 inst = {'c': [float(t) for t in case['c']], 'G': G, 'h': [float(t) for t in hh], 'dims': d, 'A': [], 'b': []}
                 yield inst
+    elif case['fam'] == 'rank1':
+        pal, u = case['pal'], case['u']
+        d = {'l': 3, 'q': [], 's': []}
+        for v in ((1, 2), (2, 1), (1, -2), (4, 2), (3, 1)):
+            for hh in itertools.product(pal, repeat=3):
+                for t in (0, 1, -1):
+                    G = [[float(ui * v[0]) for ui in u], [float(ui * v[1]) for ui in u]]
+                    yield {'c': [float(t * v[0]), float(t * v[1])], 'G': G, 'h': [float(x) for x in hh], 'dims': d, 'A': [], 'b': []}
     else:
         inst = solve.planted(case['dims'], case['n'], case['p'], case['variant'], case['kind'])
         if inst is not None:
@@ -172,6 +194,7 @@ def run(case, prop, which, tier='quick'):
     n = nontrivial = 0
     for inst in instances(case):
         d = inst['dims']
+        rd = None
         for cfg in cfgs_for(d, len(inst['A']), case['cfgset'], tier):
             res, args = solve.call(inst, cfg)
             n += 1
@@ -206,7 +229,11 @@ def run(case, prop, which, tier='quick'):
             for v in O.viol[nv:]:
                 v['sub'] = {'instance': {k: inst[k] for k in ('c', 'G', 'h', 'dims', 'A', 'b')}, 'cfg': cfg,
                             'detail': v.get('sub')}
-                v['key'] = v['key'] + '@' + cfg_tag(cfg)
+                # instances whose [G; A] is rank deficient violate the documented assumptions of the solvers: what goes wrong
+                # on them is keyed apart, so that a recorded finding about them cannot hide a violation on well-posed data
+                if rd is None:
+                    rd = '' if solve.rank_ok(inst) else ':rank-deficient-data'
+                v['key'] = v['key'] + rd + '@' + cfg_tag(cfg)
             outcomes[lab] = outcomes.get(lab, 0) + 1
             if len(O.viol) > 40:
                 break
